@@ -440,6 +440,17 @@ def span_matches(raw, us):
 
 # --------------------------------------------------------------------------- run
 def run(ctx):
+    # --- coordinator: an instant held in a variable is unchanged by floor, ceil and arithmetic on it
+    _items = []
+    for _d in ("#2024-02-29#", "#2023-12-31#", "#2024-01-31T00:00:00#", "#2024-03-10T12:00#"):
+        _items += [(["d = %s" % _d, "c = ceil(d)", "d == %s" % _d], "I:1", "ceil(d) leaves d unchanged"),
+                   (["d = %s" % _d, "d < ceil(d)"], "I:1", "d < ceil(d) through a variable"),
+                   (["d = %s" % _d, "(ceil(d) - floor(d)) to d"], "I:1", "ceil(d) - floor(d) is one day through a variable"),
+                   (["d = %s" % _d, "f = floor(d)", "g = d + 1", "h = d - 3 h", "d == %s" % _d], "I:1", "floor/+/- leave d unchanged")]
+    _items += [(["#2020-01-01T01:00:00.000001# - #2020-01-01#"], lambda o: o.get("value") in ("Q:X:%s|0,0,1,0,0,0,0,0" % (3600.000001).hex(),), "microseconds survive a difference of an hour"),
+               (["I = #2020-01-01#", "q = 1 year + 1 ms", "round(((I+q)-I) to ms) == 31536000001"], "I:1", "(I+q)-I = q (to the microsecond) for a year plus a millisecond"),
+               (["I = #2020-01-01#", "J = I + 365 d + 1 ms", "K = I + 365 d + 2 ms", "(J-I) < (K-I)"], "I:1", "differences a millisecond apart at a year's distance are ordered")]
+    C.expect_sessions(ctx["report"], ctx["rundir"], "C17", _items)
     global SECONDS_DIMS
     rep, tier, seed = ctx["report"], ctx["tier"], ctx["seed"]
     rng0 = random.Random(seed * 104729 + 17)
